@@ -394,7 +394,13 @@ class Shapes:
             live = [(d, x) for d, x in bodies if not _only_panic_or_err(x)]
             if len(live) == 1:
                 return self.term_shape(live[0][1], env, depth, impl)
-            shp = [(str(d), self.term_shape(x, env, depth, impl)) for d, x in bodies]
+            # `if let Some(x) = v { .. } else { .. }` is the two-arm match on v: label the arms by the pattern and its complement
+            c_ = strip(scrut[1])
+            relab = {}
+            if isinstance(c_, tuple) and c_ and c_[0] == 'letcond' and c_[1] in ('Some', 'None', 'Ok', 'Err'):
+                other = {'Some': 'None', 'None': 'Some', 'Ok': 'Err', 'Err': 'Ok'}[c_[1]]
+                relab = {'true': c_[1], 'false': other}
+            shp = [(relab.get(str(d), str(d)), self.term_shape(x, env, depth, impl)) for d, x in bodies]
             if all(w == ('eps',) for _, w in shp):
                 return ('eps',)
             return ('alt', shp)
